@@ -38,7 +38,11 @@ REFINE_MAP = {'Msm': ['C01', 'C11'], 'Coring': ['C05'], 'Events': ['C06', 'C11']
               'Init': ['C01', 'C02', 'C17'], 'Accessors': ['C02', ('C03', r'lumped'), ('C17', r'construct_then|trajs_refines')], 'CkTest': ['C09'], 'CkApi': ['C09'], 'Public2': [('C13', r'compare_api'), ('C07', r'propagate_tmat')], 'Public': ['C01', 'C03', ('C11', r'public_estimate'), ('C17', r'public_estimate')],
               'Small': [('C01', r'estimate_markov_model'), ('C11', r'estimate_markov_model'), ('C12', r'estimate_markov_model_(perm|default)_refines'), ('C07', r'propagate_MCMC'), ('C20', r'runningmean'), ('C16', r'open_limits'), ('C19', r'open_limits')],
               'Eigen': ['C10', ('C04', r'left_eigenvectors')], 'Its': ['C10'], 'TextIO': ['C16', ('C19', r'opentxt_limits|openmicrostates')],
-              'TimesPublic': ['C08', ('C06', r'msm_estimate_paths')], 'Gauss': ['C20'], 'ItsEnd': ['C10'], 'TimesEnd': ['C08'], 'McmcEnd': ['C07'], 'CkEnd': ['C09'], 'ItsPlain': ['C10'], 'TextIOEnd': ['C16', ('C19', r'openmicrostates|opentxt_limits')]}
+              'TimesPublic': ['C08', ('C06', r'msm_estimate_paths')], 'Gauss': ['C20'], 'ItsEnd': ['C10'], 'TimesEnd': ['C08'], 'McmcEnd': ['C07'], 'CkEnd': ['C09'], 'ItsPlain': ['C10'], 'TextIOEnd': ['C16', ('C19', r'openmicrostates|opentxt_limits')],
+              'Transfer': ['C11', ('C05', r'coring'), ('C06', r'waiting'), ('C13', r'compare')], 'ErgodicTransfer': ['C14'],
+              'CoringTransfer': [('C05', r'dynamical_coring|^api_|guard_of_result|mapM_bind'), ('C06', r'^estimate_')],
+              'CompareTransfer': [('C13', r'^api_|swap$'), ('C15', r'shift_data|rename_by|unique')],
+              'LumpedTransfer': [('C01', r'^plain'), ('C03', r'^lumped')]}
 refine = os.path.join(HOME, 'lean', 'MsmVerif', 'Refine')
 for topic, pids in REFINE_MAP.items():
     f = os.path.join(refine, topic + '.lean')
